@@ -72,6 +72,13 @@ def specs(tier):
         spec = dict(term)
         spec.update(grammar=[('D1', 1.0)], prince=pr)
         out.append(spec)
+    # rulesets in other encodings: the word file is written in the ruleset's encoding (utf-16 and utf-8-sig start with a byte-order mark - once)
+    latin = dict(big)
+    latin['A'] = {3: [('\u00e9t\u00e9', .5), ('\u00fcbe', .3), ('abc', .2)]}
+    for term, enc in ((uni, 'utf-16'), (uni, 'utf-8-sig'), (latin, 'latin-1'), (uni, 'utf-32')):
+        spec = dict(term)
+        spec.update(grammar=[('D1', 1.0)], prince=[('A3', .6), ('O1', .3), ('D1', .1)], encoding=enc)
+        out.append(spec)
     return out
 
 
@@ -174,7 +181,7 @@ def run_shard(shard, tier, acc):
                 acc.fail(case, '-s %d raised %s' % (N, r.exc.strip().splitlines()[-1]), 'raise')
                 continue
             if mode == 'file':
-                with open(outp, encoding='utf-8') as f:
+                with open(outp, encoding=spec.get('encoding', 'utf-8'), newline='') as f:
                     lines = f.read().split('\n')
                 if lines and lines[-1] == '':
                     lines.pop()
